@@ -343,6 +343,56 @@ func genTree(r *Rng, o treeOpts) *GenTree {
 			docs[f] = append(docs[f], string(y))
 			t.Resources = append(t.Resources, &GenRes{Tracer: tracer, Obj: ob, Layer: li})
 		}
+		// RBAC family (C01): several RoleBindings of one namespace whose ServiceAccount subjects live in different
+		// other namespaces; with a rename in the tree the name-reference pass must fix every subject, whatever
+		// order the referrers are visited in
+		if li == 0 && hasDir(o, "rbac") {
+			var b strings.Builder
+			nsub := 2 + r.Intn(2)
+			for k := 0; k < nsub; k++ {
+				tSA, tRB := fmt.Sprintf("t%d", tr), fmt.Sprintf("t%d", tr+1)
+				tr += 2
+				sa := obj{"apiVersion": "v1", "kind": "ServiceAccount",
+					"metadata": obj{"name": fmt.Sprintf("op%d", k), "namespace": fmt.Sprintf("team%d", k), "annotations": obj{"tracer": tSA}}}
+				rb := obj{"apiVersion": "rbac.authorization.k8s.io/v1", "kind": "RoleBinding",
+					"metadata": obj{"name": fmt.Sprintf("bind%d", k), "namespace": "shared", "annotations": obj{"tracer": tRB}},
+					"roleRef":  obj{"apiGroup": "rbac.authorization.k8s.io", "kind": "ClusterRole", "name": "external-role"},
+					"subjects": []interface{}{obj{"kind": "ServiceAccount", "name": fmt.Sprintf("op%d", k), "namespace": fmt.Sprintf("team%d", k)}}}
+				for _, ob := range []obj{sa, rb} {
+					y, _ := syaml.Marshal(ob)
+					if b.Len() > 0 {
+						b.WriteString("---\n")
+					}
+					b.Write(y)
+				}
+				t.Resources = append(t.Resources, &GenRes{Tracer: tSA, Obj: sa, Layer: li}, &GenRes{Tracer: tRB, Obj: rb, Layer: li})
+			}
+			l.Files["rbac.yaml"] = b.String()
+			resList = append(resList, "rbac.yaml")
+			l.Kust["resources"] = resList
+			if _, ok := l.Kust["namePrefix"]; !ok {
+				l.Kust["namePrefix"] = "prod-"
+			}
+		}
+		// hand-written documents: YAML anchors / aliases / merge keys, and keep-chomped block scalars that end a
+		// non-final document of a multi-document file (their typed value is what a YAML 1.1 reader sees)
+		if nres > 0 && r.Chance(35) {
+			for _, raw := range rawDocs(r, &tr) {
+				var ob obj
+				if err := syaml.Unmarshal([]byte(raw.text), &ob); err != nil {
+					continue
+				}
+				id := fmt.Sprint(ob["kind"]) + "/" + fmt.Sprint(ob["metadata"].(obj)["name"])
+				if usedIds[id] {
+					continue
+				}
+				usedIds[id] = true
+				// put it FIRST in a file so that a keep-chomped scalar is followed by a separator
+				f := r.Intn(nfiles)
+				docs[f] = append([]string{raw.text}, docs[f]...)
+				t.Resources = append(t.Resources, &GenRes{Tracer: raw.tracer, Obj: ob, Layer: li})
+			}
+		}
 		for f := 0; f < nfiles; f++ {
 			if len(docs[f]) == 0 {
 				continue
@@ -509,3 +559,45 @@ func advStringNoNL(r *Rng) string {
 
 // chain returns the layers that apply to a resource defined in layer li, innermost first.
 func (t *GenTree) chain(li int) []*GenLayer { return t.Layers[li:] }
+
+type rawDoc struct{ text, tracer string }
+
+// rawDocs returns 1-2 documents written as YAML text (not marshalled from objects).
+func rawDocs(r *Rng, tr *int) []rawDoc {
+	out := []rawDoc{}
+	next := func() string { t := fmt.Sprintf("t%d", *tr); *tr++; return t }
+	if r.Bool() {
+		t := next()
+		n := r.Intn(3)
+		out = append(out, rawDoc{tracer: t, text: fmt.Sprintf(`apiVersion: example.com/v1
+kind: Widget
+metadata: &ident
+  name: anch%d
+  annotations:
+    tracer: %s
+spec:
+  owner:
+    <<: *ident
+    role: %q
+  tmpl: &ctr
+    name: c
+    image: %s
+  containers:
+  - <<: *ctr
+  - name: d
+    image: %s
+  fallback: *ctr
+  words: &w [a, b]
+  again: *w
+`, n, t, r.Pick([]string{"admin", "yes", "012"}), r.Pick(imageNames), r.Pick(imageNames))})
+	}
+	if r.Bool() {
+		t := next()
+		n := r.Intn(3)
+		blanks := strings.Repeat("\n", 1+r.Intn(3))
+		style := r.Pick([]string{"|+", "|+", "|+", "|", "|-"}) // literal styles only: folded keep-chomped scalars are read differently by go-yaml v2 and v3
+		out = append(out, rawDoc{tracer: t, text: fmt.Sprintf("apiVersion: v1\nkind: ConfigMap\nmetadata:\n  name: motd%d\n  annotations:\n    tracer: %s\ndata:\n  a: plain\n  motd: %s\n    welcome\n    to %s%s",
+			n, t, style, r.Pick([]string{"yes", "x: y", "#1"}), "\n"+blanks)})
+	}
+	return out
+}
